@@ -395,6 +395,13 @@ def _dict_vs_in_place(repo, rep):
               "attributes in place")
 
 
+def _ancestors(n):
+    a = getattr(n, "_parent", None)
+    while a is not None:
+        yield a
+        a = getattr(a, "_parent", None)
+
+
 def _split_on_written_text(repo, rep):
     """';' separates the entries of tal:attributes unless it ends a character
     entity -- a rule about the text *as written*.  visit_element decodes the
@@ -413,6 +420,43 @@ def _split_on_written_text(repo, rep):
     if not parse:
         raise AnalysisError("visit_element: parse_attributes call vanished")
     early = [d for d in dec if d.lineno < min(p.lineno for p in parse)]
+    # ... unless the statements made of parts are left out of the early
+    # decoding (a 'continue' under a membership test that covers
+    # 'attributes') and decoded part by part after the split
+    def covers_attributes(test):
+        for x in ast.walk(test):
+            if isinstance(x, ast.Constant) and x.value == "attributes":
+                return True
+            if isinstance(x, (ast.Name, ast.Attribute)):
+                nm = src(x).split(".")[-1]
+                for mod in ("chameleon.tal", "chameleon.zpt.program"):
+                    try:
+                        val = repo.const(mod, nm)
+                    except Exception:
+                        continue
+                    if isinstance(val, (set, frozenset, tuple, list)) and \
+                            "attributes" in val:
+                        return True
+        return False
+    skipped = []
+    for d in early:
+        a = getattr(d, "_parent", None)
+        while a is not None and not isinstance(a, ast.For):
+            a = getattr(a, "_parent", None)
+        if a is None:
+            continue
+        for x in ast.walk(a):
+            if isinstance(x, ast.If) and x.lineno < d.lineno and any(
+                    isinstance(y, ast.Continue) for y in x.body) and \
+                    covers_attributes(x.test):
+                skipped.append(d)
+    pa_ = repo.func("chameleon.tal.parse_attributes")
+    late = [n for n in ast.walk(pa_.node) if isinstance(n, ast.Call)
+            and src(n.func) == "decode_htmlentities"
+            and any(isinstance(l_, ast.For) and "split_parts(" in src(l_.iter)
+                    for l_, _ in [(g, 0) for g in _ancestors(n)])]
+    if skipped and len(skipped) == len(early) and late:
+        early = []
     rep.check(not (early and protects), "R07.6", ve.qualname,
               "the entries of tal:attributes are split on the text as "
               "written (entity protection of ';' and entity decoding do not "
